@@ -53,8 +53,12 @@ PROPS = {
             "years (calendar and ISO) 1000..9999: four digits, as the statement says",
             "pendulum.parse(text, exact=True) on the five ISO shapes: the date named, ParserError when it does not exist (assumed, validated natively)",
             "decimal rendering: format(n, '02d') / str(n) of a non-negative integer; int() of a numeral; str.split / lower / upper on ASCII",
+            "regular expressions: derivative matcher over the real patterns as parsed by the standard library's parser; '$' read as end of string (validated against re on every run)",
         ],
-        "not_decided": [],
+        "native_standins": "contracts.c05_text:NATIVE_STANDINS",
+        "not_decided": ["arbitrary strings: only the bounded stand-in (the symbolic refusal families cover structured texts with symbolic fields)",
+                        "years below 1000 (printed without padding) and sizes below one: outside the statement",
+                        "the file-name use in OnDiskStorage (C17 / C19 assume the round trip proved here)"],
     },
     "C12": {
         "theories": ["period keys as an uninterpreted sort with CANON = str o period (idempotent); buffers as maps from keys to arrays"],
